@@ -817,6 +817,35 @@ func main() {
 	}
 	macroConst = constOK
 
+	// ---- part 0c: corpus (needed parentheses, finding C25-6: macro expansion removes every ParenExpr, the printer must
+	// write back those the grammar needs).  The source is plain Go: the written file must have its declarations.
+	if vdir := os.Getenv("VERIF_DIR"); vdir != "" {
+		src, err := os.ReadFile(filepath.Join(vdir, "corpus", "C39", "needed_parens", "a.gomacro"))
+		if err == nil {
+			work := a.Path("src/corpus_needed_parens")
+			os.RemoveAll(work)
+			os.MkdirAll(work, 0o755)
+			os.WriteFile(filepath.Join(work, "a.gomacro"), src, 0o644)
+			var buf bytes.Buffer
+			c := newCmd(&buf)
+			diag, perr := preprocess(c, &buf, filepath.Join(work, "a.gomacro"))
+			w, _ := os.ReadFile(filepath.Join(work, "a.go"))
+			wo, e1 := observe(string(w), false)
+			eo, e2 := observe(string(src), false)
+			parensOK := perr == "" && e1 == nil && e2 == nil && strings.Join(wo.decls, "|") == strings.Join(eo.decls, "|")
+			if !parensOK {
+				got := string(w) + diag + perr
+				if e1 != nil {
+					got = e1.Error() + "\n" + got
+				}
+				rep.Fail(vh.Failure{Key: "corpus:needed-parentheses-dropped", What: "gomacro -m -w on plain Go: parentheses the grammar needs (composite literal in an if/for/switch/range header, conversion to <-chan T, chan (<-chan T)) are missing in the written file: it does not parse or means something else",
+					Input: string(src), Got: got, Want: string(src)})
+			}
+			rep.Extra["corpus_needed_parens_ok"] = parensOK
+			rep.Dist("corpus:needed_parens")
+		}
+	}
+
 	phase("corpus done")
 	// ---- generate
 	var jobs []*job
